@@ -16,7 +16,12 @@ const ALPHA35: [&str; 37] = [
     // characters whose Unicode case folding is a notation letter: KELVIN SIGN (K), LONG S (s)
     "\u{212A}", "\u{17F}",
 ];
-const ALPHA15: [&str; 17] = ["A", "K", "2", "s", "o", "h", "+", "-", ":", ".", "0", "1", ",", " ", "\u{e9}", "\u{212A}", "\u{17F}"];
+const ALPHA15: [&str; 21] = [
+    "A", "K", "2", "s", "o", "h", "+", "-", ":", ".", "0", "1", ",", " ", "\u{e9}", "\u{212A}", "\u{17F}",
+    // NO-BREAK SPACE (C2 A0), POUND SIGN (C2 A3), a-grave (C3 A0): continuation / lead bytes that a byte-wise
+    // whitespace filter can tear apart; and a tab
+    "\u{a0}", "\u{a3}", "\u{e0}", "\t",
+];
 
 /// the i-th string of length `len` over `alpha`
 fn nth_string(alpha: &[&str], len: usize, mut i: u64) -> String {
@@ -334,7 +339,7 @@ pub fn run(tier: &str, mode: Mode) -> i32 {
             }
         }
         rep.machine(st_all.nonempty_ranges.max(1), st_all.stage2.max(1), st_all.strings);
-        rep.sub("short-strings-range-parsers", &format!("ALL strings of 0..={} symbols over the 17-symbol alphabet {{A,K,2,s,o,h,+,-,:,.,0,1,comma,space,U+00E9,U+212A,U+017F}} parsed as HandRangeToken and HandRange; every value obtained is formatted, expanded, decomposed into rank pairs and leftovers, and enumerated by the evaluator alone and beside a second range on the first and last positions; distinct_nontrivial = strings that parse to a token or a non-empty range", max_len), st_all.strings, st_all.parsed_tokens + st_all.nonempty_ranges, true, json!({"max_symbols": max_len, "tokens_parsed": st_all.parsed_tokens, "non_empty_ranges": st_all.nonempty_ranges, "second_stage_operations": st_all.stage2}));
+        rep.sub("short-strings-range-parsers", &format!("ALL strings of 0..={} symbols over the 21-symbol alphabet {{A,K,2,s,o,h,+,-,:,.,0,1,comma,space,tab,U+00E9,U+212A,U+017F,U+00A0,U+00A3,U+00E0}} parsed as HandRangeToken and HandRange; every value obtained is formatted, expanded, decomposed into rank pairs and leftovers, and enumerated by the evaluator alone and beside a second range on the first and last positions; distinct_nontrivial = strings that parse to a token or a non-empty range", max_len), st_all.strings, st_all.parsed_tokens + st_all.nonempty_ranges, true, json!({"max_symbols": max_len, "tokens_parsed": st_all.parsed_tokens, "non_empty_ranges": st_all.nonempty_ranges, "second_stage_operations": st_all.stage2}));
     }
 
     // (c) every string of the seven token shapes with arbitrary ranks, bare and with a weight
@@ -377,6 +382,56 @@ pub fn run(tier: &str, mode: Mode) -> i32 {
         rep.machine(st_all.nonempty_ranges.max(1), st_all.stage2.max(1), st_all.strings);
         rep.sub("token-shapes", "EVERY string of the seven token shapes with arbitrary ranks: 169 x {none,s,o} x {none,+}; all 13^4 'XY-ZW'; all 13^4 x 4 'XY[so]-ZW[so]'; all 52^2 card-pair shapes (146,523 strings), bare and (all in thorough, every third in quick) with ':0.5', through the token and range parsers and the second stage; distinct_nontrivial = strings that parse", st_all.strings, st_all.parsed_tokens.max(st_all.nonempty_ranges), true, json!({"shape_strings": shapes.len(), "tokens_parsed": st_all.parsed_tokens, "non_empty_ranges": st_all.nonempty_ranges, "second_stage_operations": st_all.stage2}));
         rep.sample(json!({"inputs": ["22-AA", "KAs+", "2As+", "AsAs", "AKs-AQo"]}));
+    }
+
+    // (c2) letter-case variants of the token shapes: every single letter flipped, and all letters flipped
+    {
+        let shapes = shape_strings();
+        let mut variants: Vec<String> = vec![];
+        for (i, sh) in shapes.iter().enumerate() {
+            // all card-pair shapes and the 1014 short shapes completely; every 40th of the span shapes
+            let short = sh.len() <= 4;
+            if !short && i % 40 != 0 {
+                continue;
+            }
+            let chars: Vec<char> = sh.chars().collect();
+            let flip = |c: char| if c.is_ascii_uppercase() { c.to_ascii_lowercase() } else { c.to_ascii_uppercase() };
+            for k in 0..chars.len() {
+                if chars[k].is_ascii_alphabetic() {
+                    let mut v = chars.clone();
+                    v[k] = flip(v[k]);
+                    variants.push(v.iter().collect());
+                }
+            }
+            variants.push(chars.iter().map(|c| flip(*c)).collect());
+        }
+        variants.sort();
+        variants.dedup();
+        let chunk = 256;
+        let nch = (variants.len() + chunk - 1) / chunk;
+        let outs = par_map(nch, |c| {
+            let mut st = Stats::default();
+            let mut bad = vec![];
+            for s in &variants[c * chunk..((c + 1) * chunk).min(variants.len())] {
+                st.strings += 1;
+                if let Some((stage, what)) = small_parsers(s, &mut st).filter(|_| mode == Mode::Total).or_else(|| big_parsers(s, mode, false, &mut st)) {
+                    if bad.len() < 3 {
+                        bad.push((s.clone(), stage, what));
+                    }
+                }
+            }
+            (st, bad)
+        });
+        let mut st_all = Stats::default();
+        for (st, bad) in outs {
+            st_all.strings += st.strings;
+            st_all.parsed_tokens += st.parsed_tokens;
+            st_all.nonempty_ranges += st.nonempty_ranges;
+            for (s, stage, what) in bad {
+                push_viol(&mut rep, "case-variants", &s, &stage, &what, mode);
+            }
+        }
+        rep.sub("case-variants", "letter-case variants of the token shapes (all 2,704 card-pair shapes and the 1,014 short shapes, every 40th span shape): each single letter flipped and all letters flipped, e.g. 'AsAS', 'aKs', 'AKS+'; distinct_nontrivial = variants that parse (none on the pinned grammar)", st_all.strings, st_all.parsed_tokens + st_all.nonempty_ranges, false, json!({"variants": variants.len()}));
     }
 
     if mode == Mode::Total {
